@@ -1,6 +1,7 @@
 import DendroModel.Theory.C16Cols
 import DendroModel.Theory.C16Poly
 import DendroModel.Theory.C16Gap
+import DendroModel.Theory.C15Build
 import DendroModel.Theory.C16Sym
 /-! C16 — property theorems about `parsimony` (= `runNodes` over the post-order with the node-attribute store), the
 function the driver `drv_c16` runs.
@@ -26,11 +27,11 @@ def wt (w : Option (List Nat)) (c : Nat) : Nat :=
   | none => 1
   | some l => l.getD c 0
 
-/-- one weight per character, if weights are given -/
+/-- at least one weight per character, if weights are given (the code never looks at entries past the last character) -/
 def WOk (w : Option (List Nat)) (n : Nat) : Prop :=
   match w with
   | none => True
-  | some l => l.length = n
+  | some l => n ≤ l.length
 
 /-- copies of a bifurcating tree that differ in child order (and possibly in node identities, lengths, labels) -/
 inductive SwapT : T → T → Prop
@@ -184,7 +185,7 @@ theorem viewU_nchar {m : Matrix} {n : Nat} {t : T} {bv : BV} (hv : ViewU m t bv)
   | rooted h => exact view_nchar h hm
   | unrooted ha _ _ => exact view_nchar ha hm
 
-theorem viewU_spec {m : Matrix} {ws : List Nat} {n : Nat} (hws : ws.length = n) {t : T} {bv : BV} (hv : ViewU m t bv)
+theorem viewU_spec {m : Matrix} {ws : List Nat} {n : Nat} (hws : n ≤ ws.length) {t : T} {bv : BV} (hv : ViewU m t bv)
     (hm : RectM m n) : SpecT m ws n t bv := by
   cases hv with
   | rooted h => exact spec_view hws h (view_rect h hm).1
@@ -192,7 +193,7 @@ theorem viewU_spec {m : Matrix} {ws : List Nat} {n : Nat} (hws : ws.length = n) 
     exact spec_tri hws ha hb hc (view_rect ha hm).1 (view_rect hb hm).1 (view_rect hc hm).1 _ _ _ _
 
 theorem ws_length {m : Matrix} {n : Nat} (hn : nchar m = n) (w : Option (List Nat)) (hw : WOk w n) :
-    (weightsOf m w).length = n := by
+    n ≤ (weightsOf m w).length := by
   cases w with
   | none => simp [weightsOf, hn]
   | some l => simpa [WOk, weightsOf] using hw
@@ -793,9 +794,11 @@ theorem score_minimal_unrooted {m : Matrix} {n : Nat} {i : Nat} {x : Option Nat}
       rw [(Classical.choose_spec (hex k) hk).2.2.2]
 
 /-- **Every root position is reached** (clause b, completeness of the root slides).  For every proper descendant subtree `v` of a
-bifurcating tree — i.e. for every edge, the one above `v` — some sequence of root slides puts the root on that edge: `v`, with
-everything below it unchanged, becomes a child of the root.  Together with `root_position_independent`: the score is the same
-with the root on any edge. -/
+bifurcating tree — i.e. for every edge, the one above `v` — some sequence of root slides makes `v`, with everything below it
+unchanged, a child of the root.  What is stated here is only that `v` becomes a root child; that the OTHER root child then holds the
+rest of the tree is not part of this statement: it follows from `Aux.view_rootStep` (every slide is one of the four `Rot`
+rearrangements of the same subtrees, the node identities stay the same set) and is what the harness checks on every re-rooted copy
+(`unrooted_splits`).  Together with `root_position_independent`: the score is the same with the root on any edge. -/
 theorem reroot_reaches_every_edge {m : Matrix} {t : T} {bv : BV} (hv : View m t bv) (hid : (ids t).Nodup) {v : T}
     (hb : Below v t) : ∃ path, v ∈ (reroot path t).cs := by
   induction hb with
@@ -841,8 +844,8 @@ theorem table_ok : C16Alphabets.alphabets.all (fun a =>
 
 theorem table_nonzero : ∀ a, a ∈ C16Alphabets.alphabets → ∀ e, e ∈ a.2 → e.2.1 ≠ 0 ∧ e.2.2 ≠ 0 := by decide
 
-/-- every list of state sets the driver builds from symbols (`rowOfSymbols`, the only source of matrices) is free of empty
-sets, so every rectangular matrix the driver accepts satisfies `RectM` -/
+/-- every list of state sets `rowOfSymbols` builds (the driver's `sets` op for a fixed alphabet; matrices of scoring calls are built by
+`matrixOf`, see `matrixOf_rectM`) is free of empty sets -/
 theorem rowOfSymbols_nonzero (alph : String) (g : Bool) : ∀ (syms : List Char) (row : Row),
     rowOfSymbols alph g syms = some row → ∀ v, v ∈ row → v ≠ 0
   | [], row, h => by
@@ -908,9 +911,9 @@ theorem score_linear_add {m : Matrix} {n : Nat} {t : T} {bv : BV} (hv : ViewU m 
       parsimony m (some w2) attrs t = .ok st2 ∧ st.score = st1.score + st2.score ∧
       st.bychar = addL st1.bychar st2.bychar := by
   obtain ⟨al, _, ag⟩ := addL_spec n w1 w2 h1 h2
-  obtain ⟨st, hp, hl, hb, hs⟩ := score_spec hv hm hid (some (addL w1 w2)) al attrs
-  obtain ⟨st1, hp1, hl1, hb1, hs1⟩ := score_spec hv hm hid (some w1) h1 attrs
-  obtain ⟨st2, hp2, hl2, hb2, hs2⟩ := score_spec hv hm hid (some w2) h2 attrs
+  obtain ⟨st, hp, hl, hb, hs⟩ := score_spec hv hm hid (some (addL w1 w2)) (Nat.le_of_eq al.symm) attrs
+  obtain ⟨st1, hp1, hl1, hb1, hs1⟩ := score_spec hv hm hid (some w1) (Nat.le_of_eq h1.symm) attrs
+  obtain ⟨st2, hp2, hl2, hb2, hs2⟩ := score_spec hv hm hid (some w2) (Nat.le_of_eq h2.symm) attrs
   obtain ⟨bl, _, bg⟩ := addL_spec n st1.bychar st2.bychar hl1 hl2
   refine ⟨st, st1, st2, hp, hp1, hp2, ?_, ?_⟩
   · rw [hs, hs1, hs2, ← sumTo_add]
@@ -929,8 +932,8 @@ theorem score_linear_smul {m : Matrix} {n : Nat} {t : T} {bv : BV} (hv : ViewU m
     ∃ st st1, parsimony m (some (w.map (fun x => a * x))) attrs t = .ok st ∧ parsimony m (some w) attrs t = .ok st1 ∧
       st.score = a * st1.score ∧ st.bychar = st1.bychar.map (fun x => a * x) := by
   have hw' : (w.map (fun x => a * x)).length = n := by simpa using hw
-  obtain ⟨st, hp, hl, hb, hs⟩ := score_spec hv hm hid (some (w.map (fun x => a * x))) hw' attrs
-  obtain ⟨st1, hp1, hl1, hb1, hs1⟩ := score_spec hv hm hid (some w) hw attrs
+  obtain ⟨st, hp, hl, hb, hs⟩ := score_spec hv hm hid (some (w.map (fun x => a * x))) (Nat.le_of_eq hw'.symm) attrs
+  obtain ⟨st1, hp1, hl1, hb1, hs1⟩ := score_spec hv hm hid (some w) (Nat.le_of_eq hw.symm) attrs
   refine ⟨st, st1, hp, hp1, ?_, ?_⟩
   · rw [hs, hs1, ← sumTo_mul]
     apply sumTo_congr
@@ -971,7 +974,7 @@ theorem polytomy_score_spec {m : Matrix} {n : Nat} {t : T} {bv : BV} (h : toBV m
     ∃ st, parsimony m w attrs t = .ok st ∧ st.bychar.length = n ∧
       (∀ c, c < n → st.bychar.getD c 0 = wt w c * (fitch (col c bv)).2) ∧
       st.score = sumTo n (fun c => wt w c * (fitch (col c bv)).2) := by
-  have hnc : ∀ ws : List Nat, ws.length = n → GoodBV m ws n t bv := fun ws hws => good_T hws hm t bv h
+  have hnc : ∀ ws : List Nat, n ≤ ws.length → GoodBV m ws n t bv := fun ws hws => good_T hws hm t bv h
   have hn : nchar m = n := by
     obtain ⟨_, _, h0⟩ := hnc (List.replicate n 0) (by simp)
     exact nchar_of_rect hm h0
@@ -981,7 +984,8 @@ theorem polytomy_score_spec {m : Matrix} {n : Nat} {t : T} {bv : BV} (h : toBV m
   rw [hs, sumL_eq_sumTo, hl]
   exact sumTo_congr n _ _ hb
 
-/-- **Minimality with polytomies** (clause a, beyond the statement's bifurcating trees).  The score the fold defines on a tree with
+/-- **Minimality with polytomies: minimum of the LADDER RESOLUTION, not of the polytomy itself** (clause a, beyond the statement's
+bifurcating trees).  The score the fold defines on a tree with
 polytomies is the minimum weighted number of changes over all families of assignments of states to the nodes of its ladder
 resolution (a resolution has more nodes than the polytomy, so this is a lower bound of the polytomy's own minimum; for a basal
 trifurcation the two coincide, `score_minimal_unrooted`). -/
@@ -1106,6 +1110,37 @@ theorem matrixOf_rectM (cols : List ColAlph) (g : Bool) (hwf : ∀ col, col ∈ 
         · simp only [hb] at hk
           exact matrixOf_rectM cols g hwf rest m' h2 k row hk
 
+/-- **Longer weight lists** (clause a, "with the given weights"): entries of the weight list past the last character are never
+looked at — appending anything to a full-length weight list changes neither the score nor the per-character list. -/
+theorem weights_longer {m : Matrix} {n : Nat} {t : T} {bv : BV} (hv : ViewU m t bv) (hm : RectM m n)
+    (hid : (ids t).Nodup) (w e : List Nat) (hw : w.length = n) (attrs : Attrs) :
+    ∃ st st1, parsimony m (some (w ++ e)) attrs t = .ok st ∧ parsimony m (some w) attrs t = .ok st1 ∧
+      st.score = st1.score ∧ st.bychar = st1.bychar := by
+  obtain ⟨st, hp, hl, hb, hs⟩ := score_spec hv hm hid (some (w ++ e)) (by simp [WOk]; omega) attrs
+  obtain ⟨st1, hp1, hl1, hb1, hs1⟩ := score_spec hv hm hid (some w) (Nat.le_of_eq hw.symm) attrs
+  have e1 : ∀ c, c < n → wt (some (w ++ e)) c = wt (some w) c := by
+    intro c hc
+    simp only [wt, List.getD_eq_getElem?_getD]
+    rw [List.getElem?_append_left (by omega)]
+  refine ⟨st, st1, hp, hp1, ?_, ?_⟩
+  · rw [hs, hs1]
+    exact sumTo_congr n _ _ (fun c hc => by rw [e1 c hc])
+  · apply ext_getD n _ _ hl hl1
+    intro c hc
+    rw [hb c hc, hb1 c hc, e1 c hc]
+
+/-- **Every driver input lies in the theorems' domain, up to one evaluation.**  For every token list `parseTree` accepts the node
+identities are distinct, and every matrix `matrixOf` builds from well-formed column alphabets (the only ones `parseCol` lets through)
+satisfies `RectM` with one set per column.  What remains of the hypotheses of `polytomy_score_spec` / `polytomy_score_minimal` (and, on
+bifurcating trees, of the `ViewU` theorems, see `toBV_of_viewU`) is the computation `toBV m t = some bv`: no unary node and a row
+for every leaf. -/
+theorem driver_input_in_domain (toks rest : List String) (t : T) (hp : parseTree toks = some (t, rest))
+    (cols : List ColAlph) (g : Bool) (rows : List (Nat × List Char)) (m : Matrix) (hm : matrixOf cols g rows = some m)
+    (hwf : ∀ col, col ∈ cols → col.wf = true) : (ids t).Nodup ∧ RectM m cols.length := by
+  refine ⟨?_, matrixOf_rectM cols g hwf rows m hm⟩
+  obtain ⟨f, par, tax, lens, labs, r, _, rfl, hr⟩ := C15.BuildAux.parseTree_build toks t rest hp
+  exact C15.BuildAux.ids_nodup par tax lens labs f r (C15.BuildAux.acyc_root par r hr)
+
 namespace Aux
 
 theorem colSymbolSet_gapRel (col : ColAlph) (c : Char) (F : SS) (h : colSymbolSet col false c = some F) :
@@ -1177,11 +1212,72 @@ theorem matrixOf_gapRelM (cols : List ColAlph) (n : Nat) : ∀ (rows : List (Nat
         · simp only [hb] at hk ⊢
           exact hrest k rowF hk
 
+theorem view_ne_nil {m : Matrix} {t : T} {bv : BV} (hv : View m t bv) : m ≠ [] := by
+  induction hv with
+  | @leaf i x l s row h =>
+    intro h0; subst h0
+    cases x <;> simp [lookupRow, getAttr] at h
+  | node _ _ iha _ => exact iha
+
+theorem viewU_ne_nil {m : Matrix} {t : T} {bv : BV} (hv : ViewU m t bv) : m ≠ [] := by
+  cases hv with
+  | rooted h => exact view_ne_nil h
+  | unrooted ha _ _ => exact view_ne_nil ha
+
+theorem properStates_ne_zero (name : String) (c : Char) (v : SS) (g : Bool) (h : symbolSet name g c = some v) :
+    properStates name ≠ 0 := by
+  unfold symbolSet at h
+  cases ha : C16Alphabets.alphabets.find? (fun a => a.1 == name) with
+  | none => simp [ha] at h
+  | some a =>
+    obtain ⟨nm, tab⟩ := a
+    have hmem := List.mem_of_find?_eq_some ha
+    have hname : nm = name := by
+      have := List.find?_some ha
+      simpa using this
+    have hall := table_gap_ok
+    rw [List.all_eq_true] at hall
+    have h1 := hall _ hmem
+    simp only [Bool.and_eq_true, bne_iff_ne, ne_eq] at h1
+    rw [← hname]
+    exact h1.2
+
+theorem rowOfCols_q_ne_zero : ∀ (cols : List ColAlph) (g : Bool) (cs : List Char) (row : Row),
+    (∀ col, col ∈ cols → col.wf = true) → rowOfCols cols g cs = some row → ∀ col, col ∈ cols → qOfCol col ≠ 0
+  | [], _, _, _, _, _ => fun col hc => by cases hc
+  | col :: cols, g, c :: cs, row, hwf, h => by
+    simp only [rowOfCols] at h
+    cases h1 : colSymbolSet col g c with
+    | none => simp [h1] at h
+    | some v =>
+      cases h2 : rowOfCols cols g cs with
+      | none => simp [h1, h2] at h
+      | some vs =>
+        intro col' hc'
+        rcases List.mem_cons.mp hc' with rfl | hin
+        · cases col' with
+          | table name => exact properStates_ne_zero name c v g h1
+          | custom gm fund amb =>
+            have hw := hwf _ (List.mem_cons_self)
+            simp only [ColAlph.wf, Bool.and_eq_true, Bool.not_eq_true'] at hw
+            have hk : fund.length ≠ 0 := by
+              intro h0
+              have : fund = [] := List.eq_nil_of_length_eq_zero h0
+              simp [this] at hw
+            exact all_ne_zero hk
+        · exact rowOfCols_q_ne_zero cols g cs vs (fun c' hc => hwf c' (List.mem_cons_of_mem _ hc)) h2 col' hin
+  | _ :: _, _, [], _, _, h => by simp [rowOfCols] at h
+
+theorem getD_map_q (cols : List ColAlph) (c : Nat) (hc : c < cols.length) :
+    ∃ col, col ∈ cols ∧ (cols.map qOfCol).getD c 0 = qOfCol col := by
+  refine ⟨cols[c], List.getElem_mem hc, ?_⟩
+  simp [List.getD_eq_getElem?_getD, hc]
+
 end Aux
 
-/-- **`gaps_as_missing=True` never scores higher than `gaps_as_missing=False`** (clause a, end to end on the matrices the driver
+/-- **`gaps_as_missing=True` never scores higher than `gaps_as_missing=False`** (clause a, on the matrices the driver
 builds with `matrixOf` from rows of symbols and column alphabets — fixed alphabets through the generated tables, custom ones through
-`customSet`).  The hypothesis on the columns' proper-state sets holds for every alphabet of the table (`table_gap_ok`) and every
+`customSet`).  The matrix-shape hypotheses `hmF`, `hmM`, `hq` are discharged in `gaps_flag_monotone_driver`; the one on the columns' proper-state sets holds for every alphabet of the table (`table_gap_ok`) and every
 custom alphabet with a fundamental state (`all_ne_zero`). -/
 theorem gaps_flag_monotone {n : Nat} {cols : List ColAlph} {rows : List (Nat × List Char)} {mF mM : Matrix} {t : T}
     {bvF : BV} (hF : matrixOf cols false rows = some mF) (hM : matrixOf cols true rows = some mM)
@@ -1194,6 +1290,78 @@ theorem gaps_flag_monotone {n : Nat} {cols : List ColAlph} {rows : List (Nat × 
   cases hM'
   exact gaps_as_missing_monotone hv hmF hmM hrel hq hid w hw attrs attrs'
 
+/-- **`gaps_as_missing=True` never scores higher, on the driver's own inputs** — `gaps_flag_monotone` with its matrix-shape
+hypotheses discharged: for the two matrices `matrixOf` builds from the same rows of symbols and well-formed column alphabets, on a
+`ViewU` tree with distinct node identities (`driver_input_in_domain`), with at least one weight per column. -/
+theorem gaps_flag_monotone_driver {cols : List ColAlph} {rows : List (Nat × List Char)} {mF mM : Matrix} {t : T}
+    {bvF : BV} (hF : matrixOf cols false rows = some mF) (hM : matrixOf cols true rows = some mM)
+    (hwf : ∀ col, col ∈ cols → col.wf = true) (hv : ViewU mF t bvF) (hid : (ids t).Nodup)
+    (w : Option (List Nat)) (hw : WOk w cols.length) (attrs attrs' : Attrs) :
+    ∃ stF stM, parsimony mF w attrs t = .ok stF ∧ parsimony mM w attrs' t = .ok stM ∧
+      stM.score ≤ stF.score ∧ ∀ c, c < cols.length → stM.bychar.getD c 0 ≤ stF.bychar.getD c 0 := by
+  have hmF := matrixOf_rectM cols false hwf rows mF hF
+  have hmM := matrixOf_rectM cols true hwf rows mM hM
+  have hq : ∀ c, c < cols.length → (cols.map qOfCol).getD c 0 ≠ 0 := by
+    intro c hc
+    obtain ⟨col, hmem, he⟩ := getD_map_q cols c hc
+    rw [he]
+    have hne := viewU_ne_nil hv
+    cases rows with
+    | nil =>
+      simp only [matrixOf, Option.some.injEq] at hF
+      exact absurd (by rw [← hF]) hne
+    | cons r rest =>
+      obtain ⟨b, cs⟩ := r
+      simp only [matrixOf] at hF
+      cases h1 : rowOfCols cols false cs with
+      | none => simp [h1] at hF
+      | some row => exact rowOfCols_q_ne_zero cols false cs row hwf h1 col hmem
+  exact gaps_flag_monotone hF hM hv hmF hmM hq hid w hw attrs attrs'
+
+/-- **Re-rooted copies** (clause b, as the harness scores them): any copy `t'` of a re-rooted tree `reroot path t` — renumbered nodes,
+children in any order, other lengths and labels (`SwapT`) — gets the score and per-character list of `t`.  This is
+`root_position_independent` composed with `child_order_independent`. -/
+theorem reroot_copy_independent {m : Matrix} {n : Nat} {t t' : T} {bv : BV} (hv : View m t bv) (hm : RectM m n)
+    (hid : (ids t).Nodup) (path : List Step) (hsw : SwapT (reroot path t) t') (hid' : (ids t').Nodup)
+    (w : Option (List Nat)) (hw : WOk w n) (attrs attrs' : Attrs) :
+    ∃ st st', parsimony m w attrs t = .ok st ∧ parsimony m w attrs' t' = .ok st' ∧
+      st.score = st'.score ∧ st.bychar = st'.bychar := by
+  obtain ⟨bv1, hv1, _, heq⟩ := view_reroot hm path hv hid
+  obtain ⟨bv2, hv2, hs⟩ := view_swap hsw hv1
+  refine same_result (.rooted hv) (.rooted hv2) hm hid hid' w hw (fun c hc => ?_) attrs attrs'
+  have e : fitch (col c bv1) = fitch (col c bv2) := fitch_sw (Sw.map _ hs)
+  rw [heq c hc, e]
+
+/-- **Child order at a basal trifurcation** (clause b for the unrooted form): exchanging the first two or the last two of the three
+children (these generate every order), with the subtrees themselves replaced by child-swapped copies, changes nothing. -/
+theorem unrooted_child_order_independent {m : Matrix} {n : Nat} {i i' : Nat} {x x' : Option Nat} {l l' : Option Frac}
+    {s s' : Option String} {a b c a' b' c' : T} {ba bb bc : BV}
+    (ha : View m a ba) (hb : View m b bb) (hc : View m c bc) (sa : SwapT a a') (sb : SwapT b b') (sc : SwapT c c')
+    (hm : RectM m n) (w : Option (List Nat)) (hw : WOk w n) (attrs attrs' : Attrs) :
+    ((ids (.node i x l s [a, b, c])).Nodup → (ids (.node i' x' l' s' [b', a', c'])).Nodup →
+      ∃ st st', parsimony m w attrs (.node i x l s [a, b, c]) = .ok st ∧
+        parsimony m w attrs' (.node i' x' l' s' [b', a', c']) = .ok st' ∧ st.score = st'.score ∧ st.bychar = st'.bychar) ∧
+    ((ids (.node i x l s [a, b, c])).Nodup → (ids (.node i' x' l' s' [a', c', b'])).Nodup →
+      ∃ st st', parsimony m w attrs (.node i x l s [a, b, c]) = .ok st ∧
+        parsimony m w attrs' (.node i' x' l' s' [a', c', b']) = .ok st' ∧ st.score = st'.score ∧ st.bychar = st'.bychar) := by
+  obtain ⟨ba', va, wa⟩ := view_swap sa ha
+  obtain ⟨bb', vb, wb⟩ := view_swap sb hb
+  obtain ⟨bc', vc, wc⟩ := view_swap sc hc
+  constructor
+  · intro hid hid'
+    refine same_result (.unrooted ha hb hc) (.unrooted vb va vc) hm hid hid' w hw (fun k _ => ?_) attrs attrs'
+    have e : fitch (col k (.node (.node ba bb) bc)) = fitch (col k (.node (.node bb' ba') bc')) :=
+      fitch_sw (Sw.map _ (.same (.swap wa wb) wc))
+    rw [e]
+  · intro hid hid'
+    refine same_result (.unrooted ha hb hc) (.unrooted va vc vb) hm hid hid' w hw (fun k hk => ?_) attrs attrs'
+    have hne := (viewU_rect (t := .node i x l s [a, b, c]) (.unrooted ha hb hc) hm).2 k hk
+    have e1 : (fitch (col k (.node (.node ba bb) bc))).2 = (fitch (col k (.node (.node ba bc) bb))).2 :=
+      fitch_rot (Rot.map _ (.lr ba bb bc)) hne
+    have e2 : fitch (col k (.node (.node ba bc) bb)) = fitch (col k (.node (.node ba' bc') bb')) :=
+      fitch_sw (Sw.map _ (.same (.same wa wc) wb))
+    rw [e1, e2]
+
 /-! ### the hypotheses are satisfiable; the functions compute -/
 
 /-- `((t0,t1),t2)` with two characters -/
@@ -1205,7 +1373,11 @@ def exRows : BV := .node (.node (.leaf [1, 3]) (.leaf [2, 3])) (.leaf [1, 4])
 
 example : View exMatrix exTree exRows := .node (.node (.leaf rfl) (.leaf rfl)) (.leaf rfl)
 example : (ids exTree).Nodup := by decide
-example : WOk (some [2, 5]) 2 := rfl
+example : WOk (some [2, 5]) 2 := Nat.le_refl 2
+example : WOk (some [2, 5, 9]) 2 := by simp [WOk]
+/-- a longer weight list: the extra entry is never looked at -/
+example : (match parsimony exMatrix (some [2, 5, 9]) [] exTree with
+    | .ok st => some (st.score, st.bychar) | .error _ => none) = some (7, [2, 5]) := by decide
 example : RectM exMatrix 2 := by
   intro k row h
   simp only [exMatrix, getAttr] at h
@@ -1267,5 +1439,16 @@ example : matrixOf exCols false exSyms = some [(0, [1, 8]), (1, [16, 2]), (2, [2
 example : matrixOf exCols true exSyms = some [(0, [1, 7]), (1, [15, 2]), (2, [2, 7])] := by decide
 example : ∀ c, c < 2 → (exCols.map qOfCol).getD c 0 ≠ 0 := by decide
 example : GapRel 15 16 15 := gapRel_of_gapOkB (by decide)
+
+/-- `gaps_flag_monotone_driver` and `driver_input_in_domain` fully instantiated on a state the driver produces: the three-leaf tree,
+a `dna` column and a custom column with gap and missing-data states -/
+example : ∀ col, col ∈ exCols → col.wf = true := by decide
+example : ViewU [(0, [1, 8]), (1, [16, 2]), (2, [2, 8])] exTree (.node (.node (.leaf [1, 8]) (.leaf [16, 2])) (.leaf [2, 8])) :=
+  .rooted (.node (.node (.leaf rfl) (.leaf rfl)) (.leaf rfl))
+example : RectM [(0, [1, 8]), (1, [16, 2]), (2, [2, 8])] exCols.length :=
+  matrixOf_rectM exCols false (by decide) exSyms _ (by decide)
+example : (match parsimony [(0, [1, 8]), (1, [16, 2]), (2, [2, 8])] none [] exTree,
+                 parsimony [(0, [1, 7]), (1, [15, 2]), (2, [2, 7])] none [] exTree with
+    | .ok stF, .ok stM => some (stF.score, stM.score) | _, _ => none) = some (3, 1) := by decide
 
 end DendroModel.C16
